@@ -46,7 +46,7 @@ impl rustc_driver::Callbacks for Cb {
         if tcx.dcx().has_errors().is_some() {
             return Compilation::Continue;
         }
-        let cx = Cx { tcx, crate_name: crate_name.clone() };
+        let cx = Cx { tcx, crate_name: crate_name.clone(), foreign_adts: std::cell::RefCell::new(Vec::new()) };
         let out = cx.dump();
         let mut s = String::with_capacity(1 << 24);
         out.write(&mut s);
@@ -66,6 +66,8 @@ impl rustc_driver::Callbacks for Cb {
 struct Cx<'tcx> {
     tcx: TyCtxt<'tcx>,
     crate_name: String,
+    /// foreign-crate ADTs of which this crate projects a field (their field lists are dumped as `foreign_adts`)
+    foreign_adts: std::cell::RefCell<Vec<DefId>>,
 }
 
 fn fix_crate(s: String, name: &str) -> String {
@@ -201,6 +203,26 @@ impl<'tcx> Cx<'tcx> {
                 }
             }
         }
+        let fdids: Vec<DefId> = self.foreign_adts.borrow().clone();
+        let mut foreign_adts: Vec<(String, J)> = fdids.iter().map(|d| (self.path(*d), self.dump_adt(*d))).collect();
+        foreign_adts.sort_by(|a, b| a.0.cmp(&b.0));
+        let foreign_adts: Vec<J> = foreign_adts.into_iter().map(|x| x.1).collect();
+        let foreign_methods: Vec<J> = fdids
+            .iter()
+            .map(|d| {
+                let mut names: Vec<String> = Vec::new();
+                for imp in tcx.inherent_impls(*d).iter() {
+                    for it in tcx.associated_items(*imp).in_definition_order() {
+                        if matches!(it.tag(), ty::AssocTag::Fn) {
+                            names.push(it.name().to_string());
+                        }
+                    }
+                }
+                names.sort();
+                names.dedup();
+                J::Obj(vec![("path", J::Str(self.path(*d))), ("methods", J::Arr(names.into_iter().map(J::Str).collect()))])
+            })
+            .collect();
         let ctypes: Vec<J> = tcx.crate_types().iter().map(|c| J::Str(format!("{:?}", c))).collect();
         J::Obj(vec![
             ("crate", J::Str(self.crate_name.clone())),
@@ -210,6 +232,8 @@ impl<'tcx> Cx<'tcx> {
             ("fns", J::Arr(fns)),
             ("consts", J::Arr(consts)),
             ("adts", J::Arr(adts)),
+            ("foreign_adts", J::Arr(foreign_adts)),
+            ("foreign_methods", J::Arr(foreign_methods)),
             ("impls", J::Arr(impls)),
             ("traits", J::Arr(traits)),
             ("statics", J::Arr(statics)),
@@ -724,6 +748,12 @@ impl<'tcx> Cx<'tcx> {
                 mir::ProjectionElem::Field(f, _) => {
                     let mut name = f.as_u32().to_string();
                     if let ty::Adt(adt, _) = pty.ty.kind() {
+                        if !adt.did().is_local() {
+                            let mut seen = self.foreign_adts.borrow_mut();
+                            if !seen.contains(&adt.did()) {
+                                seen.push(adt.did());
+                            }
+                        }
                         let v = match pty.variant_index {
                             Some(vi) => Some(adt.variant(vi)),
                             None if adt.is_struct() || adt.is_union() => Some(adt.non_enum_variant()),
@@ -826,6 +856,12 @@ impl<'tcx> Cx<'tcx> {
             let st = tcx.type_of(imp).instantiate_identity().skip_norm_wip();
             if let ty::Adt(a, _) = st.kind() {
                 o.push(("impl_adt", J::Str(self.path(a.did()))));
+                if !a.did().is_local() && tcx.impl_opt_trait_ref(imp).is_none() {
+                    let mut seen = self.foreign_adts.borrow_mut();
+                    if !seen.contains(&a.did()) {
+                        seen.push(a.did());
+                    }
+                }
             }
             if let Some(t) = tcx.impl_opt_trait_ref(imp) {
                 let t = t.instantiate_identity().skip_norm_wip();
